@@ -140,7 +140,7 @@ def main(argv):
             if term and r["unwinding_failed"] and not r["property_failed"]:
                 rp = kani.run(h, os.path.join(kani.LOGS, f"{h['prop']}-{h['name']}.trace.log"),
                               extra=["-Z", "unstable-options", "--output-format", "old", "--cbmc-args", "--trace"],
-                              timeout=int(h["timeout"] * tmul * 2), mem_gb=float(h.get("mem", mem)))
+                              timeout=int(h["timeout"] * tmul * 2), mem_gb=max(32.0, 3 * float(h.get("mem", mem))))
                 text = open(rp["log"], errors="replace").read()
                 tests = replay.tests_from_trace(h, text)
                 if not tests:
@@ -158,7 +158,7 @@ def main(argv):
                 continue
             rp = kani.run(h, os.path.join(kani.LOGS, f"{h['prop']}-{h['name']}.playback.log"),
                           extra=["-Z", "concrete-playback", "--concrete-playback=print"],
-                          timeout=int(h["timeout"] * tmul * 2), mem_gb=float(h.get("mem", mem)))
+                          timeout=int(h["timeout"] * tmul * 2), mem_gb=max(32.0, 3 * float(h.get("mem", mem))))
             text = open(rp["log"], errors="replace").read()
             tests = replay.extract_tests(text)
             if h.get("should_panic") != "true":
